@@ -427,3 +427,82 @@ def check_select(prog, sm, scalar):
     if bad_exit:
         problems.append('selecting a registered handle terminates the program')
     return problems, len(good)
+
+
+# ---------------------------------------------------------------- removal of a registry entry outside init_mms
+def removal_paths(prog, f, scalar):
+    """Paths of entry point f (callees inlined, one path per branch) with what each does to the registry:
+    [(path, erased iterators, deleted terms, pointer written?, pointer value)]"""
+    from . import api
+    regs = api.registry_globals(prog)
+    own = regs[scalar]
+    mp, ptr = own + '._master_map', own + '._master_pointer'
+    E = terms.Evaluator(prog, scalar=scalar, noreturn=('masa_exit',))
+    E.unroll_paths = True
+    outs = E.run(f)
+    res = []
+    for o in list(outs) + [p_ for p_ in E.trace.exit_paths if p_ not in outs]:
+        evs = api.flat(o.events)
+        erased = []
+        v = o.mem.get(mp)
+        other_map_write = False
+        while v is not None and v[0] == 'call' and v[1].startswith('container:'):
+            if v[1] == 'container:erase' and len(v[2]) == 2:
+                erased.append(v[2][1])
+            else:
+                other_map_write = True
+            v = v[2][0]
+        if v is not None and not (v[0] == 'sym' and v[1] in (mp, '@old:' + mp)):
+            other_map_write = True
+        deleted = [e[1] for e in evs if e[0] == 'delete']
+        res.append({'path': o, 'erased': erased, 'deleted': deleted, 'ptr_written': ptr in o.mem, 'ptr_value': o.mem.get(ptr),
+                    'other_map_write': other_map_write, 'map_written': mp in o.mem, 'facts': list(o.conds) + [e[1] for e in evs if e[0] == 'cond'],
+                    'mp': mp, 'ptr': ptr})
+    return res
+
+
+def check_removal(rp):
+    """(problems, leaks, recognised?) for one path of removal_paths: the entry found under a checked key is erased, its object is
+    deleted, and the selection pointer cannot be left designating the deleted object."""
+    if rp['path'].kind == 'exit':
+        bad = []
+        if rp['map_written'] or rp['deleted']:
+            bad.append('the registry is modified on a path that then terminates')
+        return bad, [], True
+    if not rp['map_written'] and not rp['ptr_written'] and not rp['deleted']:
+        return [], [], True
+    if rp['other_map_write']:
+        return [], [], False
+    mp, ptr = rp['mp'], rp['ptr']
+    probs, leaks = [], []
+
+    def obj_of(it):
+        return ('field', ('call', 'op:operator->', (it,)), 'second'), ('field', ('call', 'op:operator*', (it,)), 'second')
+    for it in rp['erased']:
+        if not (it[0] == 'mcall' and it[1] == ('sym', mp) and it[2] == 'find' and len(it[3]) == 1):
+            return [], [], False
+        if not any(lf is not None and lf[0] == it[3][0] and lf[1] is True for lf in (lookup_fact(c, mp) for c in rp['facts'])):
+            probs.append('erases find(%s) without having established that the handle is registered' % terms.fmt(it[3][0])[:20])
+        objs = obj_of(it)
+        if not any(d in objs for d in rp['deleted']):
+            leaks.append('the entry of handle `%s` is removed from the registry but its solution object is not deleted on this path' % terms.fmt(it[3][0])[:20])
+        # the selection pointer must not keep designating the object
+        same = [c for c in rp['facts'] if c[0] == 'cmp' and c[1] == '==' and ((c[2] == ('sym', ptr) and c[3] in objs) or (c[3] == ('sym', ptr) and c[2] in objs))]
+        diff = [c for c in rp['facts'] if (c[0] == 'not' and c[1][0] == 'cmp' and c[1][1] == '==' and ((c[1][2] == ('sym', ptr) and c[1][3] in objs) or (c[1][3] == ('sym', ptr) and c[1][2] in objs))) or
+                (c[0] == 'cmp' and c[1] == '!=' and ((c[2] == ('sym', ptr) and c[3] in objs) or (c[3] == ('sym', ptr) and c[2] in objs)))]
+        if any(d in objs for d in rp['deleted']):
+            if rp['ptr_written']:
+                if rp['ptr_value'] != terms.num(0) and not (rp['ptr_value'] is not None and rp['ptr_value'][0] == 'field'):
+                    return [], [], False
+            elif not diff:
+                probs.append('the object of handle `%s` is deleted while the selection pointer may still designate it (no test _master_pointer == it->second, no reset)' % terms.fmt(it[3][0])[:20])
+            if same and not rp['ptr_written']:
+                probs.append('the selected solution is deleted and the selection pointer keeps its address')
+    for d in rp['deleted']:
+        if not any(d in obj_of(it) for it in rp['erased']):
+            if any(x == ('sym', mp) for x in terms.subterms(d)):
+                probs.append('a registered solution object is deleted but its entry stays in the registry (dangling pointer)')
+    if rp['ptr_written'] and not rp['erased']:
+        return [], [], False
+    return probs, leaks, True
+
